@@ -258,6 +258,9 @@ func execute(t *testing.T, ck *Check, run int, seed uint64, scen, sched *simrt.T
 				res.Steps = s.Steps
 				res.SimSeconds = s.Now().Seconds()
 				res.trace = s.TraceLines()
+				for i := 0; i < s.Stalls; i++ {
+					ctx.FaultFired("F-thread-stall")
+				}
 				if s.Zeno {
 					res.Inconclusive = "zeno"
 				} else if s.StepCap {
@@ -558,6 +561,21 @@ func TestVerif(t *testing.T) {
 		}
 		os.WriteFile(*flagOut+".hashes", buf, 0o644)
 	}
+}
+
+// maybeStalls switches the thread-stall fault on for about half of the runs: a few times per run a
+// task loses the processor for 1..maxMs simulated milliseconds at a pre-emption point. It widens
+// every "between two steps of one thread" window without changing what any thread does.
+func maybeStalls(c *Ctx, s *simrt.Sched, maxMs ...int) {
+	t := c.Scen
+	if s.PreemptDen < 2 || !t.Bool(1, 2) {
+		return
+	}
+	if len(maxMs) == 0 {
+		maxMs = []int{5, 50, 300}
+	}
+	s.StallBudget, s.StallDen, s.StallMaxMs = 1+int(t.Choose(4)), uint32(pickFrom(t, 3, 8, 32)), uint32(pickFrom(t, maxMs...))
+	c.FaultConfigured("F-thread-stall")
 }
 
 // isKnownOpen: the violation is listed as an open known finding (the orchestrator prints the
